@@ -1,5 +1,5 @@
 From Flocq Require Import Core BinarySingleNaN.
-From Tetl Require Import Lib.Base C12.Model C12.Spec C12.FModel C12.UModel C12.USpec C12.FGuard.
+From Tetl Require Import Lib.Base C12.Model C12.Spec C12.FModel C12.UModel C12.USpec C12.FGuard C12.ModelChain C12.SpecChain.
 Require Extraction.
 Require Import ExtrOcamlBasic.
 Extraction Language OCaml.
@@ -22,4 +22,6 @@ Extraction "C12_model.ml" wire_anchor
   utp_eq_m utp_ne_m utp_lt_m utp_le_m utp_gt_m utp_ge_m
   urep_ok crep_spec ufits uboth_ok uplus_ok uminus_ok udiv_ok uscalar_ok ucast_ok uwrap overflow_is_ub
   ufloor_ok uceil_ok uround_ok uabs_ok
+  all_mops effect_m result_m call_m chain_m tp_call_m tp_chain_m returns_lvalue_m tp_returns_lvalue_m tp_has_op
+  effect_spec returns_this_spec value_spec chain_spec step_ok chain_ok tp_op_spec
   fits rep_ok period_ok cast_ok common_ok both_ok plus_ok minus_ok div_ok floor_ok ceil_ok round_ok abs_ok.
